@@ -18,6 +18,7 @@
 From Coq Require Import List NArith ZArith Bool.
 From Mila Require Import Lib.Bytes Lib.Machine Model.BinArchive Model.BinStreams Model.BinFormat Model.ASet
   Proofs.RecsCells Proofs.RecsBytes Proofs.ASetBits Proofs.ASetWrite Proofs.ASetRead Proofs.ASetRoundTrip.
+From Mila Require Proofs.RecsTotal.
 Import ListNotations.
 Local Open Scope N_scope.
 
@@ -35,6 +36,20 @@ Proof. exact main_flags_testbit. Qed.
         each of its 256 slots ---- *)
 Theorem C17_round_trip_archive : forall v, wf_aset v -> exists a, build v = Ok a /\ from_archive a = Ok v /\ a = built v.
 Proof. exact round_trip_archive. Qed.
+
+(* outside the domain: sets of any non-zero length.  The writer reads slots with `set.get(index)`, so a short set is padded with
+   absent slots and entries beyond 256 are ignored: the value read back is the normalised value (which is in the domain) *)
+Theorem C17_round_trip_normalises : forall v,
+  length (as_table v) = 257%nat -> Forall (fun s : oset => s <> []) (as_sets v) ->
+  exists a, build v = Ok a /\ from_archive a = Ok (norm_aset v) /\ wf_aset (norm_aset v).
+Proof. exact round_trip_normalises. Qed.
+Theorem C17_normal_form : forall v, wf_aset v -> norm_aset v = v.
+Proof. exact norm_aset_wf. Qed.
+(* whatever the reader returns - from ANY archive, also a foreign or malformed one - is in the domain and a fixed point of
+   write -> read *)
+Theorem C17_reader_output_round_trips : forall a v,
+  from_archive a = Ok v -> wf_aset v /\ exists a', build v = Ok a' /\ from_archive a' = Ok v.
+Proof. exact (fun a v H => conj (RecsTotal.ASetT.from_archive_wf a v H) (RecsTotal.ASetT.reader_output_round_trips a v H)). Qed.
 
 (* the writer builds exactly the archive of the cell list and the label map *)
 Theorem C17_writer_builds_cells : forall v,
@@ -110,6 +125,11 @@ Theorem C17_round_trip_final : forall m v, wf_aset_bytes v ->
   exists f, serialize m v = Ok f /\ parse f = Ok v /\ (forall v', parse f = Ok v' -> serialize m v' = Ok f).
 Proof. exact round_trip_bytes_final. Qed.
 
+(* two values of the domain with the same image are equal *)
+Theorem C17_serialize_injective : forall m v1 v2 f,
+  wf_aset_bytes v1 -> wf_aset_bytes v2 -> serialize m v1 = Ok f -> serialize m v2 = Ok f -> v1 = v2.
+Proof. exact serialize_injective. Qed.
+
 (* ---- non-vacuity ---- *)
 Fixpoint put (n : nat) (x : bytes) (l : oset) : oset :=
   match l with [] => [] | y :: r => match n with O => Some x :: r | S n' => y :: put n' x r end end.
@@ -128,6 +148,11 @@ Proof. eexists. split; [vm_compute; reflexivity | vm_compute; reflexivity]. Qed.
 (* its data region: 12 + 1028 + (4 + 3 flag words + 4 names) * 4 + 4 *)
 Example C17_example_space : exists a, build ex_aset = Ok a /\ size a = 12 + 1028 + 32 + 4.
 Proof. eexists. split; [vm_compute; reflexivity | vm_compute; reflexivity]. Qed.
+(* a short set (label + 3 entries) and a long one (258 entries): read back normalised *)
+Example C17_example_normalises :
+  let v := {| as_meta := None; as_table := repeat None 257; as_sets := [[None; Some [97]; None; Some [98]]; repeat (Some [120]) 259] |} in
+  exists a, build v = Ok a /\ from_archive a = Ok (norm_aset v) /\ norm_aset v <> v.
+Proof. intros; eexists. split; [vm_compute; reflexivity | split; [vm_compute; reflexivity | discriminate]]. Qed.
 (* the label AnimClipNameTable is reserved: with it on a set the lookup finds the table at 12 only because the
    model's map keeps insertion order; from_bytes/hash order may return the set's address instead *)
 Example C17_table_label_reserved :
